@@ -169,7 +169,16 @@ def validate_tree(mol: Mol, tree: X.Tree, tag="inst", timeout=600):
     return res
 
 
-def explore_and_validate(mol: Mol, g, max_nodes=6000, max_seconds=60, qgrid=None, tag="inst", parse_text=None):
+def stagewise(obj, rng):
+    """Public-API use that builds a molecule element by element, reading the intermediate results (C05 / C10)."""
+    mg = None
+    for el in obj.elements:
+        mg = el.generate(mg, rng)
+        _ = (mg.weight, mg.fully_generated)
+    return mg
+
+
+def explore_and_validate(mol: Mol, g, max_nodes=6000, max_seconds=60, qgrid=None, tag="inst", parse_text=None, call=None):
     text = parse_text or mol.text()
     t0 = time.time()
     try:
@@ -180,7 +189,7 @@ def explore_and_validate(mol: Mol, g, max_nodes=6000, max_seconds=60, qgrid=None
         r.tlc_tail = f"{type(exc).__name__}: {exc}"
         return r, None
     X.Tap.install(g)
-    tree = X.explore(obj, max_nodes=max_nodes, max_seconds=max_seconds, qgrid=qgrid)
+    tree = X.explore(obj, max_nodes=max_nodes, max_seconds=max_seconds, qgrid=qgrid, call=call)
     ew = time.time() - t0
     res = validate_tree(mol, tree, tag=tag)
     res.explore_wall = ew
